@@ -513,6 +513,9 @@ def _case_settings(ctx, spec):
         else:
             _, nm, par, kids, cls = stp
             parent = nodes[par]
+            if is_setup and funded:
+                # the parent's universe has been looked at today already (any selection algo does) when the newcomer arrives
+                parent.universe
             built = [k if isinstance(k, str) else bt.core.Security(k["sec"], **({"lazy_add": True} if k.get("lazy") else {})) for k in kids]
             if cls == "Strategy":
                 stack = [bt.algos.SelectAll(), bt.algos.WeighEqually(), bt.algos.Rebalance()] if spec.get("newcomers_trade") else []
@@ -524,6 +527,8 @@ def _case_settings(ctx, spec):
             if is_setup:
                 new.setup_from_parent()
                 labs.add("attached_after_setup")
+                if funded and nm not in parent.universe.columns:
+                    raise Violation("the universe of %s, read again after the sub-strategy %s joined it on %s, has no column for it (columns %s); steps %s" % (parent.full_name, nm, root.now, [str(c) for c in parent.universe.columns], spec["steps"]), signature="c19:settings-universe-column")
             if pushed_fee or pushed_int is False:
                 labs.add("attached_after_push")
     if not is_setup:
